@@ -14,6 +14,8 @@ import Generated.Tables
 * `epytext doctestbody <u:s> (<start> <srcEnd> <stop> <0|1> <matches>)*` → pieces | `AssertionError`
 * `epytext plaintext <u:s>` → `<u:child>`
 * `epytext field <tag> <fn> <kind> <hasArg> <paramExists> <attrKnown>` → `heading=… attr=0|shown|hidden reported=… modelled=…`
+* `epytext itemliteral <bullet_indent> <para_start> <bullet flags 0/1 per line> <u:line>*` → `none` | `some <u:contents> <indent>`
+  (`_tokenize_listart` + the literal block `_tokenize` starts after the item's first paragraph)
 * `epytext heading <u:contents[0]> [<u:contents[1]>]` → `heading <level>` | `typo` | `para`   (`_tokenize_para`)
 * `epytext pair (d<n>|t<n>)*` → `absent` | `body=… type=…`   (return/rtype, yield/ytype handlers in source order)
 * `epytext spaces` → code points below 0x3100 for which `pyIsSpace`
@@ -196,6 +198,13 @@ def handle (args : List String) : String :=
     match Fields.parseKind kind with
     | some k => Fields.showOutcome (Fields.outcome tag fn k ⟨hasArg == "1", ex == "1", known == "1"⟩)
     | none => "bad-op"
+  | "itemliteral" :: bi :: ps :: bl :: ls =>
+    match bi.toNat?, ps.toNat?, ls.mapM Proto.decodeStr with
+    | some b, some pstart, some lines =>
+      match itemLiteral lines (bl.toList.map (· == '1')) 0 b pstart with
+      | some (c, ind) => "some " ++ Proto.encodeStr c ++ " " ++ toString ind
+      | none => "none"
+    | _, _, _ => "bad-op"
   | ["heading", a] =>
     match Proto.decodeStr a with
     | some c0 => showHead (headingOf c0 none)
